@@ -86,6 +86,47 @@ func (w *World) monitorDamage() {
 	}
 }
 
+// monitorFSProgress: after stops anywhere inside the FileSystem store's
+// operations the adopted client gets online, completes what it accepted and
+// still receives.
+func (w *World) monitorFSProgress() {
+	if len(w.crashSnaps) == 0 {
+		return
+	}
+	if len(w.panics) > 0 {
+		w.Violate("C16", "panic", "panic after a stop inside the store: %v", w.panics)
+	}
+	if w.horizonHit {
+		w.Violate("C16", "no-stabilisation#interrupted-save", "after a stop at step %d the execution did not become quiet within %d steps", w.crashSnaps[0].step, w.step)
+		return
+	}
+	if !w.quiet || w.client == nil {
+		return
+	}
+	before := len(w.viol)
+	w.monitorProgress()
+	for i := before; i < len(w.viol); i++ {
+		if w.viol[i].Prop == "C10" {
+			w.viol[i].Prop, w.viol[i].Sig = "C16", "cannot-connect#interrupted-save"
+		}
+	}
+	for _, a := range w.actors {
+		if a.gen != w.gen {
+			continue
+		}
+		for i := range a.results {
+			r := &a.results[i]
+			if r.X == nil || r.Err != nil {
+				continue
+			}
+			op := &a.spec.Ops[r.Idx]
+			if w.forwards(op) == 0 || !r.X.closed {
+				w.Violate("C16", "new-publish-never-completed", "after a stop inside the store: %s op %d (%s) accepted by the adopted client did not complete", a.spec.Name, r.Idx, op.Kind)
+			}
+		}
+	}
+}
+
 func keyClass(k uint) string {
 	switch {
 	case k == 0:
@@ -171,7 +212,7 @@ func init() {
 				Gens:   [][]ActorSpec{{rd, {Name: "A", Ops: []Op{{Kind: kind, Topic: "b/new", Msg: []byte("Bnew-bulk")}}}}},
 				Faults: Faults{Crash: true, Damage: 2, Allow: func(w *World, k string) bool {
 					// only once everything was accepted
-					return k != "crash" || len(w.store.m) >= 7
+					return k != "crash" || len(w.records()) >= 7
 				}},
 				Horizon: 1500,
 				Final: func(w *World) {
@@ -204,7 +245,7 @@ func init() {
 				return p.Type == tPUBREL || p.Type == tPUBLISH && (p.Topic == "r/2" || p.Topic == "r/3")
 			},
 			Faults: Faults{Crash: true, Damage: 1, Allow: func(w *World, k string) bool {
-				return k != "crash" || len(w.store.m) >= 5
+				return k != "crash" || len(w.records()) >= 5
 			}},
 			Horizon: 1500,
 			Final: func(w *World) {
@@ -212,6 +253,25 @@ func init() {
 				w.monitorDamage()
 			},
 		}
+	})
+	// the FileSystem store under the scheduler: a stop can fall between any two
+	// primitives of a Save or Delete, leaving spool files behind
+	register("damagefs", func() *Scenario {
+		s := mk(0)()
+		s.FSStore = true
+		s.Faults = Faults{Crash: true}
+		// the second generation's values are shorter than what an interrupted Save left behind
+		s.Gens = [][]ActorSpec{{{Name: "reader", Reader: &ReaderSpec{Backoff: true}}, {Name: "A", Ops: []Op{
+			{Kind: "pub2", Topic: "e", Msg: []byte("D5ee")},
+			{Kind: "pub1", Topic: "f", Msg: []byte("D6ff")},
+		}}}}
+		s.Final = func(w *World) {
+			w.monitorWire()
+			w.monitorRestart()
+			w.monitorFSProgress()
+		}
+		s.AdoptProp = "C16"
+		return s
 	})
 	register("damagebulk1", mkBulk("pub1"))
 	register("damagebulk2", mkBulk("pub2"))
